@@ -585,6 +585,9 @@ func (st *Runtime) executeTry(try *TryNode) (returnValue reflect.Value) {
 	writer := st.Writer
 	buf := new(bytes.Buffer)
 
+	// state that constructs inside the try body restore only when they exit normally
+	scope, context, content := st.scope, st.context, st.content
+
 	defer func() {
 		r := recover()
 
@@ -593,6 +596,7 @@ func (st *Runtime) executeTry(try *TryNode) (returnValue reflect.Value) {
 			io.Copy(writer, buf)
 		} else {
 			// st.Writer is already set to its original value since the later defer ran first
+			st.scope, st.context, st.content = scope, context, content
 			if try.Catch != nil {
 				if try.Catch.Err != nil {
 					st.newScope()
